@@ -24,6 +24,9 @@
      F31  _resolve_called_lambdas.visit_Lambda: default values are resolved in the enclosing scope (the argument maps
           in flight apply to them, the lambda's own parameters do not hide them), the body under the parameters
      F32  _inner_binders counts every parameter of a lambda that stays (keyword-only, positional-only, * and ** too)
+     F36  a helper whose source contains an assignment expression is left by name ([has_walrus] in [helper_capval])
+     F34, F35  a captured bound method / a callable with __wrapped__ is left by name: decided on the live object
+          (inspect.ismethod, hasattr) - an input of the model, [CFun None] in the snapshot, computed by the harness
    What [inspect.getclosurevars] / [f.__globals__] / [getattr] report at the moment of the call is
    an *input* of the model (the snapshot [cenv]); it is validated by correspondence only.
 
@@ -657,11 +660,34 @@ Fixpoint res (st : list amap) (e : expr) {struct e} : expr :=
    [res] returns such a node unchanged.) *)
 Definition resolve_called (e : expr) : sres expr := Ok (res [] e).
 
+(* F36: any(isinstance(n, ast.NamedExpr) for n in ast.walk(lm)) - an assignment expression `(x := v)` is
+   Other "NamedExpr;target=n;value=n" [] [x; v] *)
+Fixpoint has_walrus (e : expr) : bool :=
+  match e with
+  | Name _ | Const _ | Raw _ => false
+  | Attr v _ => has_walrus v
+  | Call f args _ kwv => has_walrus f || existsb has_walrus args || existsb has_walrus kwv
+  | Lambda _ b => has_walrus b
+  | UnaryOp _ x => has_walrus x
+  | BinOp _ l r => has_walrus l || has_walrus r
+  | BoolOp _ es => existsb has_walrus es
+  | Compare l _ rs => has_walrus l || existsb has_walrus rs
+  | IfExp c t f => has_walrus c || has_walrus t || has_walrus f
+  | Tuple es | List es => existsb has_walrus es
+  | Dict ks vs => existsb has_walrus ks || existsb has_walrus vs
+  | Subscript v s => has_walrus v || has_walrus s
+  | ListComp x gs | GenExp x gs => has_walrus x || existsb has_walrus gs
+  | CompFor t i ifs _ => has_walrus t || has_walrus i || existsb has_walrus ifs
+  | Other cls _ cs => String.prefix "NamedExpr;" cls || existsb has_walrus cs
+  end.
+
 (* FC5: what visit_Name.safe_parse_wrapper makes of a captured helper whose source was parsed into the lambda
    [l]: the lambda rewritten with the helper's own snapshot [hce]; any exception leaves the helper by name.
    (The recursion over helpers of helpers, and its guard against self-reference, is carried out by the caller
    that assembles the snapshot - the driver - one [helper_capval] step per helper.) *)
 Definition helper_capval (hce : cenv) (l : expr) : capval :=
+  if has_walrus l then CFun None          (* F36: an assignment expression rebinds a name - the helper stays by name *)
+  else
   match rewrite_captured hce l with
   | Ok l' => CFun (Some l')
   | Err _ => CFun None
